@@ -60,7 +60,39 @@ def run(cmd, cwd, timeout):
     except subprocess.TimeoutExpired:
         return 124, 'timeout'
 
+# the Go build cache grows by ~70 MB per mutant (the mutated package and everything above it are
+# recompiled, with their test variants): 1,800 mutants filled 136 GB in the first run. The gate lets
+# the workers drain every 120 mutants and empties the cache when it has passed 25 GB.
+import threading
+_gate = threading.Condition(); _active = 0; _paused = False; _count = 0
+def _enter():
+    global _active, _count, _paused
+    with _gate:
+        while _paused: _gate.wait()
+        _count += 1
+        if _count % 120 == 0:
+            _paused = True
+            while _active > 0: _gate.wait()
+            try:
+                sz = int(subprocess.run(['du', '-sm', os.path.expanduser('~/.cache/go-build')], capture_output=True, text=True).stdout.split()[0])
+                if sz > 25000:
+                    subprocess.run(['go', 'clean', '-cache'], env=ENV)
+            except Exception: pass
+            _paused = False; _gate.notify_all()
+        _active += 1
+def _leave():
+    global _active
+    with _gate:
+        _active -= 1; _gate.notify_all()
+
 def one(job):
+    _enter()
+    try:
+        return _one(job)
+    finally:
+        _leave()
+
+def _one(job):
     path, idx, lineno, newline, src = job
     tag = hashlib.md5(f'{path}:{lineno}:{newline}'.encode()).hexdigest()[:10]
     r, v = f'/tmp/mut-{tag}-r', f'/tmp/mut-{tag}-v'
@@ -129,7 +161,9 @@ if __name__ == '__main__':
         for k, (ln, nl) in enumerate(ms):
             jobs.append((f, k, ln, nl, src))
     print(len(jobs), 'mutants', file=sys.stderr)
-    with open(outp, 'w') as fo, ThreadPoolExecutor(max_workers=int(os.environ.get('MUT_PAR', '7'))) as ex:
+    start = int(os.environ.get('MUT_FROM', '0'))
+    jobs = jobs[start:]
+    with open(outp, 'a' if start else 'w') as fo, ThreadPoolExecutor(max_workers=int(os.environ.get('MUT_PAR', '7'))) as ex:
         for n, res in enumerate(ex.map(one, jobs)):
             fo.write(json.dumps(res) + '\n'); fo.flush()
             if n % 50 == 0:
